@@ -91,3 +91,22 @@ def t16_ls_word(rnd):
     if r < 0.9:
         return 0x9000 | rnd.getrandbits(12)                   # SP-relative
     return rnd.choice([0xC000, 0xC800, 0xB400, 0xBC00]) | rnd.getrandbits(9 if rnd.random() < 0.5 else 8)
+
+# system instructions
+ARM_SYS = [('msr_imm', 'cccc00110r10mmmm1111iiiiiiiiiiii'), ('msr_reg', 'cccc00010r10mmmm111100000000nnnn'),
+           ('mrs', 'cccc00010r001111dddd000000000000'), ('hint', 'cccc0011001000001111000000000hhh'),
+           ('cps', '111100010000iix00000000aif0mmmmm'), ('setend', '1111000100000001000000e000000000'),
+           ('subs_pc_lr_imm', 'cccc001oooo1nnnn1111iiiiiiiiiiii'), ('subs_pc_lr_reg', 'cccc000oooo1nnnn1111iiiiitt0mmmm'),
+           ('rfe', '1111100pu0w1nnnn0000101000000000'), ('srs', '1111100pu1w0110100000101000mmmmm'),
+           ('ldm_excret', 'cccc100pu1w1nnnn1rrrrrrrrrrrrrrr'), ('ldm_user', 'cccc100pu101nnnn0rrrrrrrrrrrrrrr'),
+           ('stm_user', 'cccc100pu100nnnnrrrrrrrrrrrrrrrr'), ('svc', 'cccc1111iiiiiiiiiiiiiiiiiiiiiiii'),
+           ('smc', 'cccc000101100000000000000111iiii'), ('eret', 'cccc0001011000000000000001101110')]
+T16_SYS = [('setend', '101101100101e000'), ('cps', '10110110011i0aif'), ('hint', '101111110hhh0000'), ('svc', '11011111iiiiiiii')]
+T32_SYS = [('msr', '11110011100rnnnn1000mmmm00000000'), ('mrs', '11110011111r11111000dddd00000000'),
+           ('cps', '111100111010111110000iixaifmmmmm'), ('hint', '11110011101011111000000000000hhh'),
+           ('subs_pc_lr', '11110011110111101000111iiiiiiiii'[:23] + 'iiiiiiiii'[:9]), ('smc', '111101111111iiii1000000000000000'),
+           ('rfe_db', '1110100000w1nnnn1100000000000000'), ('rfe_ia', '1110100110w1nnnn1100000000000000'),
+           ('srs_db', '1110100000w0110111000000000mmmmm'), ('srs_ia', '1110100110w0110111000000000mmmmm')]
+T32_SYS = [(n, p) for n, p in T32_SYS if len(p) == 32]
+T32_SYS.append(('subs_pc_lr', '111100111101111010001111iiiiiiii'))
+GOOD_MODES = [16, 17, 18, 19, 22, 23, 27, 31]
